@@ -594,6 +594,48 @@ def run_centre_forms(ctx):
                                       f"{len(np.asarray(got.indices))} points, the same centre in floats gives {len(np.asarray(want.indices))} (or other points)", case)
 
 
+def run_integer_points(ctx):
+    """Grids whose POINT array has an integer dtype (a lattice of whole numbers handed over as it is) queried at centres with
+    a fractional part: the local grid is that of the same points in floats (added after seeded change C10-K: the centre was
+    cast to the dtype of the points)."""
+    import itertools as it
+
+    from grid.basegrid import Grid
+
+    rng = _rng(ctx.seed, "intpoints")
+    lat = np.array(list(it.product(range(4), repeat=3)))
+    sets = {"line-int64": np.arange(20), "line-int32": np.arange(20, dtype=np.int32), "lattice-int64": lat, "lattice-int32": lat.astype(np.int32),
+            "plane-int64": np.array(list(it.product(range(5), range(4))))}
+    for name, pts in sets.items():
+        w = rng.uniform(0.1, 1.0, len(pts))
+        dim = 1 if pts.ndim == 1 else pts.shape[1]
+        with warnings.catch_warnings():
+            warnings.simplefilter("ignore")
+            try:
+                gi, gf = Grid(pts.copy(), w.copy()), Grid(pts.astype(float), w.copy())
+            except Exception as exc:
+                ctx.violation(f"integer-points:{name}:construction-raised:{type(exc).__name__}", f"Grid(integer points): {exc}", {"route": "integer-points"})
+                continue
+            for c in ([4.5, 1.5, 1.5], [0.25, 2.75, 1.5], [2.0, 1.0, 3.0], [1.9, 0.2, 2.6]):
+                cen = np.float64(c[0]) if dim == 1 else np.array(c[:dim])
+                for r in (0.6, 0.9, 1.45, 2.3):
+                    ctx.count(section="integer-points")
+                    case = {"route": "integer-points", "points": name, "centre": c[:dim], "radius": r}
+                    try:
+                        got, want = gi.get_localgrid(cen, r), gf.get_localgrid(cen, r)
+                    except Exception as exc:
+                        ctx.violation(f"integer-points:raised:{type(exc).__name__}", f"{name}: get_localgrid({c[:dim]}, {r}): {type(exc).__name__}: {exc}", case)
+                        continue
+                    ctx.nontrivial(("integer-points", name, tuple(c[:dim]), r), section="integer-points")
+                    bad = lambda key, what, **det: ctx.violation(key, f"{name}: {what}", case)
+                    check_local(want, pts.astype(float), w, cen, r, bad, "integer-points:float-copy")
+                    if not np.array_equal(np.sort(np.asarray(got.indices)), np.sort(np.asarray(want.indices))):
+                        ctx.violation("integer-points:differs-from-float-points", f"{name}: centre {c[:dim]}, radius {r}: indices {np.sort(np.asarray(got.indices)).tolist()[:8]} "
+                                      f"for the integer-dtype points, {np.sort(np.asarray(want.indices)).tolist()[:8]} for the same points in floats", case)
+                    elif len(np.asarray(got.indices)) and not np.array_equal(np.asarray(got.points), pts[np.asarray(got.indices)]):
+                        ctx.violation("integer-points:points-not-parent", f"{name}: local points are not parent.points[indices]", case)
+
+
 def run(ctx):
     depth = 5 if ctx.thorough else 4
     for kind in KINDS:
@@ -606,6 +648,7 @@ def run(ctx):
     ctx.guarded("selection", run_selection, ctx)
     ctx.guarded("exact-surface", run_exact_surface, ctx)
     ctx.guarded("centre-forms", run_centre_forms, ctx)
+    ctx.guarded("integer-points", run_integer_points, ctx)
     ctx.cov["radii"] = [repr(r) for r in RADII]
     ctx.cov["depth_bound"] = depth
     ctx.exhaustive = True
@@ -618,6 +661,8 @@ def replay(ctx, case):
         return run_exact_surface(ctx)
     if case.get("route") == "centre-forms":
         return run_centre_forms(ctx)
+    if case.get("route") == "integer-points":
+        return run_integer_points(ctx)
     if case.get("route") == "select":
         res = WorkerResult(section="selection")
         _select_case(case["grid"], case["index"], ctx.seed, res)
